@@ -16,7 +16,10 @@ pub struct Scn {
     /// (model id, start vars incl. pid)
     pub starts: Vec<(String, Value)>,
     pub cfg: Cfg,
-    pub want_dumps: bool,
+    /// dump policy of the trace (world::DUMP_*)
+    pub want_dumps: u8,
+    /// quiescent snapshots carry full dumps (data, hooks, env)
+    pub full_views: bool,
     pub horizon: usize,
 }
 
@@ -27,7 +30,8 @@ impl Scn {
             models: vec![model.to_string()],
             starts: vec![(mid.to_string(), vars)],
             cfg: Cfg::default(),
-            want_dumps: false,
+            want_dumps: crate::world::DUMP_NONE,
+            full_views: false,
             horizon: 400,
         }
     }
@@ -102,11 +106,12 @@ pub fn run_scn_with(
     let mut points: Vec<QPoint> = vec![];
     let arun = {
         let pids = pids.clone();
+        let full_views = scn.full_views;
         let mut observe = |s: &mut Session, quiescent: bool| {
             if quiescent || snapshot_every_boundary {
                 let mut views = BTreeMap::new();
                 for p in &pids {
-                    views.insert(p.clone(), s.dump(p));
+                    views.insert(p.clone(), if full_views { s.dump(p) } else { s.dump_light(p) });
                 }
                 points.push(QPoint {
                     at: s.w.trace_len(),
@@ -141,6 +146,7 @@ impl Exec {
             states: self.arun.states.clone(),
             outcome,
             viols,
+            detail: String::new(),
             log: if want_log { log } else { vec![] },
             machinery: self.machinery.clone(),
         }
